@@ -173,6 +173,8 @@ type BlockResult struct {
 	// non-zero rounding remainder, the addresses one of which receives it.
 	DustCandidates []factom.FAAddress
 	Ambiguous      string // non-empty: the statement does not fix the outcome (e.g. tie at rank 100); comparison is skipped
+	// Probes names rare conditions this block met (coverage only).
+	Probes []string
 }
 
 // Ledger is the model state.
